@@ -111,6 +111,7 @@ def wildcard(F, rep):
         f = F.fn("crate::cli::flow::branch_rules::" + nm)
         if not rep.anchor(rule, nm, f): continue
         rep.fn_seen(f)
+        f = mir.inlined(F, f, depth=3)        # wildcard_prefix() / strip_wildcard_prefix() style helpers are seen through
         for bi, t in f.calls():
             full = t[1].get("full") or ""
             if "Index<std::ops::RangeTo<usize>>" not in full: continue
@@ -136,6 +137,7 @@ def wildcard(F, rep):
     # matches(): 3-row table: "*" -> non-empty; ".../*" -> starts_with(prefix) && longer; else equality
     f = F.fn("crate::cli::flow::branch_rules::BranchRule::matches")
     if f is not None:
+        f = mir.inlined(F, f, depth=3)
         consts = set()
         for bi, t in f.calls():
             for a in t[2]:
@@ -154,14 +156,24 @@ def remainder_only(F, rep):
     rule = "R04.2"
     f = F.fn("crate::cli::flow::branch_rules::BranchRule::extract_branch_number")
     if f is None: return
+    f = mir.inlined(F, f, depth=3)
     n = 0
+    # the numeric-segment search is recognised by what it does: it splits a piece of the branch name at '/'
     for bi, t in f.calls():
-        if not (mir.callee(t) or "").endswith("find_first_numeric_segment"): continue
+        if not (mir.callee(t) or "").endswith("core::str::<impl str>::split") or len(t[2]) < 2: continue
+        if mir.const_arg(f, t[2][1]) != "/": continue
         n += 1
-        wild = any(d[0] == "call" and (d[1] or "").endswith("::ends_with") and pol is True for d, pol, dd in mir.guards_of(f, bi))
-        universal = any(d[0] == "call" and "PartialEq" in (d[1] or "") and pol is True for d, pol, dd in mir.guards_of(f, bi))
-        src = mir.trace_op(f, t[2][1], transparent=())
+        src = mir.trace_op(f, t[2][0], transparent=())
         sliced = any(o.kind == "call" and "Index<std::ops::RangeFrom<usize>>" in (o.fn.blocks[o.data]["t"][1].get("full") or "") for o in src)
+        if not sliced:
+            # the slice may be wrapped (Some(&name[n..]) returned by a helper and unwrapped with `?`)
+            for kind, data in mir.deep_origins(f, t[2][0]):
+                if kind == "call" and data.isdigit():
+                    full = f.blocks[int(data)]["t"][1].get("full") or "" if f.blocks[int(data)]["t"][0] == "call" else ""
+                    if "Index<std::ops::RangeFrom<usize>>" in full or full.endswith("::strip_prefix"): sliced = True
+        if not sliced:
+            # `strip_prefix(prefix)` is the other way of dropping the prefix
+            sliced = any(o.kind == "call" and (mir.callee(o.fn.blocks[o.data]["t"]) or "").endswith("::strip_prefix") for o in mir.trace_op(f, t[2][0], transparent=mir.TRANSPARENT + ("Option::<T>::unwrap", "as std::ops::Try>::branch")))
         site = "%s bb%d line %s" % (f.where(), bi, f.blocks[bi]["line"])
         star = False
         for d, pol, dd in mir.guards_of(f, bi):
@@ -250,6 +262,7 @@ def hash_purity(F, rep):
     f = [x for x in F.find("template::functions::hash_int_function") if x.kind == "fn"]
     if not rep.anchor(rule, "hash_int_function", f): return
     f = f[0]; rep.fn_seen(f)
+    f = mir.inlined(F, f, depth=3, keep=("get_string_value",))       # stable_hash(..) / get_hash_length(..) style helpers are seen through
     keys = set()
     for g in [f] + [F.fn(mir.callee(t)) for bi, t in f.calls() if F.fn(mir.callee(t) or "") is not None]:
         for bi, t in g.calls():
